@@ -39,9 +39,12 @@ def drive(tier):
             if c < 0.45:
                 k += 1
                 add("bloom.insert", tid, k, {"e": b2l(elem(e))}, lambda: (box[0].insert(e), proj(box[0]))[1])
-            elif c < 0.85:
+            elif c < 0.75:
                 k += 1
                 add("bloom.contains", tid, k, {"e": b2l(elem(e))}, lambda: dict(proj(box[0]), res=bool(box[0].contains(e))))
+            elif c < 0.88:
+                k += 1
+                add("bloom.serialize", tid, k, {}, lambda: dict(proj(box[0]), bytes=b2l(box[0].serialize())))
             else:
                 k += 1
 
@@ -58,6 +61,17 @@ def drive(tier):
         return p
 
     # constructor over element counts x rates (caps), tweaks, flags
+    # (325, 0.05) and (141, 0.001) give exactly 253 bytes of data: the wire length prefix changes form there
+    special = [(325, 0.05), (141, 0.001), (324, 0.05), (326, 0.05)]
+    for ne_, rate_ in special:
+        tid = R.new_tid()
+        box = {}
+
+        def mk2():
+            box["f"] = CBloomFilter(ne_, rate_, 7, 1)
+            return proj(box["f"])
+        if add("bloom.new", tid, 0, {"n": ne_, "rate": str(rate_), "tweak": le(7, 4), "flags": 1}, mk2):
+            history(box["f"], tid, 0, 10, pool_for())
     counts = [1, 2, 3, 10, 1000, 20000, 20001, 100000]
     rates = [1e-9, 1e-6, 0.0001, 0.001, 0.01, 0.1, 0.5, 0.99]
     tweaks = [0, 1, 2 ** 31, 2 ** 32 - 1, 2147483649]
@@ -82,19 +96,22 @@ def drive(tier):
                 history(box["f"], tid, 0, 3, pool_for())
     # two filters alive at once, used alternately (no state may leak between objects)
     for pair in range(3 if tier == "quick" else 30):
-        fa = CBloomFilter(r.choice([3, 10, 50]), r.choice([0.01, 0.001]), r.choice(tweaks), 1)
-        fb = CBloomFilter(r.choice([3, 10, 50]), r.choice([0.01, 0.1]), r.choice(tweaks), 2)
+        tw = r.choice(tweaks)
+        fa = CBloomFilter(r.choice([3, 10, 50]), r.choice([0.01, 0.001]), tw, 1)
+        fb = CBloomFilter(r.choice([3, 10, 50]), r.choice([0.01, 0.1]), tw if pair % 2 == 0 else r.choice(tweaks), 2)
+        shared = [gen.rbytes(r, 8) for _ in range(3)]
         ta, tb = R.new_tid(), R.new_tid()
         ka = kb = 0
         inter = []
         for step in range(12 if tier == "quick" else 40):
             for flt, tid_ in ((fa, ta), (fb, tb)):
-                e = gen.rbytes(r, r.choice([0, 1, 3, 4, 20, 32, 36]))
+                e = r.choice(shared) if r.random() < 0.5 else gen.rbytes(r, r.choice([0, 1, 3, 4, 20, 32, 36]))     # both filters see the same elements
                 if r.random() < 0.5:
-                    flt.insert(e)
-                    inter.append((tid_, "bloom.insert", {"e": b2l(e)}, dict(proj(flt), k="ret")))
+                    kk_, v_ = call(flt.insert, e)
+                    inter.append((tid_, "bloom.insert", {"e": b2l(e)}, dict(proj(flt), k="ret") if kk_ == "ret" else dict(exc_info(v_), k="exc")))
                 else:
-                    inter.append((tid_, "bloom.contains", {"e": b2l(e)}, dict(proj(flt), res=bool(flt.contains(e)), k="ret")))
+                    kk_, v_ = call(flt.contains, e)
+                    inter.append((tid_, "bloom.contains", {"e": b2l(e)}, dict(proj(flt), res=bool(v_), k="ret") if kk_ == "ret" else dict(exc_info(v_), k="exc")))
         for tid_, flt0 in ((ta, fa), (tb, fb)):
             kk = 0
             # the object's history starts from an empty filter of its size
@@ -107,7 +124,7 @@ def drive(tier):
                     R.add(op, inp, out, tid=tid_, k=kk)
     # filters arriving from the wire: every data length mod 4 up to 70, zero-length data with any hash count
     arrive = []
-    for ln in list(range(0, 71)):
+    for ln in list(range(0, 71)) + [252, 253, 254, 255, 256]:
         arrive.append((bytes(ln) if ln % 3 else gen.rbytes(r, ln), r.choice([0, 1, 2, 5, 11, 50]), r.choice(tweaks), r.choice([0, 1, 2, 3, 4, 128, 255])))
     for kfun in (0, 1, 7, 50, 51, 1000, 2 ** 32 - 1):
         arrive.append((b"", kfun, r.choice(tweaks), 1))
